@@ -410,8 +410,9 @@ class Exec(Interp):
 
     def havoc_loop(self, s, fr, spec):
         names, attr_paths, containers, has_call = loop_effects(s, getattr(self, 'local_defs', None))
-        shapes = spec.get('shapes', {})
-        for n in sorted(names | set(spec.get('modifies_names', []))):
+        al = getattr(self, 'local_alias', None) or {}
+        shapes = {al.get(k, k): v for k, v in spec.get('shapes', {}).items()}
+        for n in sorted(names | {al.get(k, k) for k in spec.get('modifies_names', [])}):
             if n in shapes:
                 fr_t = self.frame_of(n, fr)
                 sh = shapes[n]
